@@ -308,6 +308,11 @@ def c17_matchers(v, text="", base_text="", **kw):
             moved = d.get("moved") or {}
             if kind != "membership_changed" or all(list(b) == [""] for a, b in moved.values()):
                 return "C17-comment-line-inside-named-block-ends-the-block"
+    if place in ("spaces_only_line_inside_block", "tab_only_line_inside_block"):
+        if (kind == "edit_makes_load_fail" and "StateNotFoundInComponent" in exc and "component ''" in exc) or kind in ("membership_changed", "code_changed", "layout_changed"):
+            return "C17-whitespace-only-line-inside-block-ends-the-block"
+    if place == "break_after_operand_in_parentheses" and kind == "edit_makes_load_fail" and "UnexpectedToken" in exc and "NEWLINE" in exc:
+        return "C17-line-break-after-operand-in-parentheses-is-a-syntax-error"
     if kind == "exceeds_progress_bound" and place == "trailing_assignment" and "**" in (d.get("comment") or ""):
         return "C17-power-tower-in-trailing-comment-is-evaluated-by-pint"
     return None
